@@ -86,7 +86,7 @@ def check_string(ctx, s, case):
 def check(ctx, case):
     v = case["s"]
     if isinstance(v, dict) and "__py__" in v:
-        v = eval(v["__py__"], {"__builtins__": {}}, {})    # non-string literals for replay (None, 1.5, b'..', [..])
+        v = eval(v["__py__"], {"__builtins__": {}, "float": float, "Ellipsis": Ellipsis, "frozenset": frozenset, "bytearray": bytearray, "type": type}, {})    # non-string values for replay
     check_string(ctx, v, case)
 
 
@@ -119,7 +119,8 @@ def hyp_case(draw, max_len):
     if kind == "text":
         return {"s": draw(st.text(max_size=30))}
     if kind == "nonstring":
-        v = draw(st.sampled_from(["None", "0", "1", "1.5", "b'EK'", "b''", "['E','K']", "[]", "('E','K')", "()", "{'E': 1}", "True", "False", "float('nan')" if False else "2.0"]))
+        v = draw(st.sampled_from(["None", "0", "1", "1.5", "b'EK'", "b''", "['E','K']", "[]", "('E','K')", "()", "{'E': 1}", "True", "False", "2.0", "float('nan')", "float('inf')", "Ellipsis", "frozenset('EK')", "bytearray(b'EK')",
+                                  "type('S', (), {'__str__': lambda self: 'EKEK'})()"]))
         return {"s": {"__py__": v}}
     w = draw(gens.sequences(max_len=max_len))
     chars = []
